@@ -25,6 +25,8 @@ type topoSpec struct {
 	Reps     []int      `json:"replicas_per_master"`
 	Ranges   [][3]int   `json:"ranges"` // start, end, owner master (-1 = nobody)
 	AddrForm int        `json:"addr_form"`
+	Rotate   int        `json:"rotate,omitempty"`  // line order of the CLUSTER NODES text
+	Reverse  bool       `json:"reverse,omitempty"` // replicas listed before masters
 	Cfg      sut.Config `json:"cfg"`
 }
 
@@ -42,7 +44,7 @@ func (ts *topoSpec) build() (*fakecluster.Cluster, *fakecluster.Topo, error) {
 	if err != nil {
 		return nil, nil, err
 	}
-	t := &fakecluster.Topo{AddrForm: ts.AddrForm}
+	t := &fakecluster.Topo{AddrForm: ts.AddrForm, Rotate: ts.Rotate, Reverse: ts.Reverse}
 	m := len(ts.Reps)
 	for i := 0; i < m; i++ {
 		n := fakecluster.TNode{ID: cl.Nodes[i].ID, Node: i, Master: true}
@@ -124,6 +126,8 @@ func genTopoSpec(t *rapid.T, minReps, maxReps int, gaps bool) topoSpec {
 		}
 	}
 	ts.AddrForm = rapid.SampledFrom([]int{3, 4, 7}).Draw(t, "addrform")
+	ts.Rotate = rapid.IntRange(0, 12).Draw(t, "rotate")
+	ts.Reverse = rapid.Bool().Draw(t, "reverse")
 	return ts
 }
 
